@@ -184,6 +184,8 @@ Definition raw_changed (s : side) (v : stamp) (e : ent) : res ent := set_changed
 Definition set_oid (s : side) (e : ent) : ent :=
   let e1 := with_oid s true e in
   if truthy (chL e) || truthy (chR e) then with_in true e1 else e1.
+(* ent.ignored = IgnoreReason.DISCARDED: SyncState.updated(key == "ignored") *)
+Definition discard_ent (e : ent) : ent := with_in false (with_ch SR None (with_ch SL None e)).
 Definition clear_oid (s : side) (e : ent) : ent :=
   let e1 := with_oid s false e in
   if truthy (ch s e) && negb (truthy (ch (other s) e)) then with_in false e1 else e1.
@@ -265,7 +267,8 @@ Inductive op :=
 | ORaw (i : nat) (s : side) (v : stamp)
 | OSetOid (i : nat) (s : side)
 | OClearOid (i : nat) (s : side)
-| OChange (now age : Q) (order : list nat).
+| OChange (now age : Q) (order : list nat)
+| ODiscard (i : nat).
 
 Definition step (c : cfg) (o : op) (s : st) : res (st * option (option nat)) :=
   let nopick (r : res st) := bind r (fun s' => Ok (s', None)) in
@@ -281,6 +284,7 @@ Definition step (c : cfg) (o : op) (s : st) : res (st * option (option nat)) :=
   | OSetOid i sd => nopick (on_ent i (fun e => Ok (set_oid sd e)) s)
   | OClearOid i sd => nopick (on_ent i (fun e => Ok (clear_oid sd e)) s)
   | OChange now age order => bind (change c now age order s) (fun p => Ok (s, Some p))
+  | ODiscard i => nopick (on_ent i (fun e => Ok (discard_ent e)) s)
   end.
 
 (* run a list of operations; stop at the first Loop/Bad *)
@@ -391,6 +395,7 @@ Definition un_op (x : sx) : option op :=
     match un_q now, un_q age, un_list un_nat order with
     | Some now, Some age, Some order => Some (OChange now age order) | _, _, _ => None end
   | L [A 10%N; i; s] => match un_nat i, un_side s with Some i, Some s => Some (OClearOid i s) | _, _ => None end
+  | L [A 11%N; i] => match un_nat i with Some i => Some (ODiscard i) | None => None end
   | _ => None
   end.
 
